@@ -78,7 +78,7 @@ class Unfolder:
             out.append(z3.ForAll(list(sp.consts), app == body, patterns=[app]))
         return out
 
-    def attempt(self, pc, goal, depth, timeout_ms, with_axioms=False, extra=(), seed=0, mbqi=True):
+    def attempt(self, pc, goal, depth, timeout_ms, with_axioms=False, extra=(), seed=0, mbqi=True, hoist=False):
         hyps = [self.to_uf(p) for p in pc]
         g = self.to_uf(goal)
         acc, seen, done = {}, set(), set()
@@ -114,9 +114,48 @@ class Unfolder:
             _random.Random(seed).shuffle(allh)
         for h in allh:
             s.add(h)
-        s.add(z3.Not(g))
+        if hoist:
+            for f in _hoisted_negation(g):
+                s.add(f)
+        else:
+            s.add(z3.Not(g))
         self.last_apps = len(acc)
         return s.check()
+
+
+def _hoisted_negation(g):
+    """The negated goal in skolemised negation normal form, plus one atom M(t) (M a fresh uninterpreted predicate) for every maximal
+    ground term t that occurs only under a quantifier of it. Equisatisfiable with Not(g) (skolemisation; M := true). Why: e-matching
+    instantiates hypotheses at terms of the e-graph, and a ground term such as f(a[i0], b[j0]) that the negated goal mentions only
+    inside 'forall r. c[r] != f(a[i0], b[j0])' enters the e-graph only once that quantifier has been instantiated - which may in
+    turn need the hypotheses instantiated at a[i0], b[j0]."""
+    gl = z3.Goal()
+    gl.add(z3.Not(g))
+    fs = [f for sub in z3.Tactic("nnf")(gl) for f in sub]
+    ground = {}
+
+    def is_ground(e):
+        i = e.get_id()
+        if i not in ground:
+            ground[i] = (not z3.is_var(e)) and (not z3.is_quantifier(e)) and all(is_ground(c) for c in e.children())
+        return ground[i]
+    found = {}
+
+    def walk(e, inq):
+        if z3.is_quantifier(e):
+            walk(e.body(), True)
+        elif z3.is_app(e):
+            if inq and e.num_args() > 0 and not z3.is_bool(e) and is_ground(e):
+                found[e.get_id()] = e
+                return
+            for c in e.children():
+                walk(c, inq)
+    for f in fs:
+        walk(f, False)
+    out = list(fs)
+    for t in found.values():
+        out.append(z3.Function(f"mention!{t.sort().name()}", t.sort(), z3.BoolSort())(t))
+    return out
 
 
 def _relevance_stage(ob, timeout_ms, t0):
@@ -162,6 +201,14 @@ def _discharge(ob, timeout_ms, unfolder=None, lemmas=(), twin_lemmas=()):
                         return "proved", "z3(skolem witnesses)", (time.time() - t0) * 1000, None
         except z3.Z3Exception:
             pass
+    if unfolder is not None and not ob.expect_sat and _has_quant(ob.goal):
+        # a quantified goal: first e-matching only, with the ground terms of the negated goal made visible (_hoisted_negation) - the VCs
+        # are written for triggers, and such an attempt usually ends at once either way. (A quantifier-free goal hides no terms.)
+        try:
+            if unfolder.attempt(ob.pc, ob.goal, 1, min(timeout_ms, int(800 * SCALE)), extra=twin_lemmas, mbqi=False, hoist=True) == z3.unsat:
+                return "proved", "z3(goal terms hoisted, unfold depth 1)", (time.time() - t0) * 1000, None
+        except z3.Z3Exception:
+            pass
     if unfolder is not None and not ob.expect_sat:
         # a small portfolio: quantifier instantiation is order-sensitive, so an attempt that gives up quickly is
         # retried with other seeds / without MBQI (each attempt is sound on its own)
@@ -170,7 +217,15 @@ def _discharge(ob, timeout_ms, unfolder=None, lemmas=(), twin_lemmas=()):
         stop = False
         for ci, (seed, mbqi) in enumerate(plan):            # the depth ladder of one configuration, then the next configuration
             if ci == 1:
-                got = _relevance_stage(ob, timeout_ms, t0)      # after the plain ladder failed: fewer hypotheses
+                # after the plain ladder failed: e-matching with the ground terms of the negated goal made visible (_hoisted_negation)
+                for depth in (1, 2):
+                    try:
+                        r = unfolder.attempt(ob.pc, ob.goal, depth, min(timeout_ms, int(1500 * SCALE)), extra=twin_lemmas, mbqi=False, hoist=True)
+                    except z3.Z3Exception:
+                        break
+                    if r == z3.unsat:
+                        return "proved", f"z3(goal terms hoisted, unfold depth {depth})", (time.time() - t0) * 1000, None
+                got = _relevance_stage(ob, timeout_ms, t0)      # then: fewer hypotheses
                 if got is not None:
                     return got
             for depth in (1, 2, 3):
@@ -360,6 +415,29 @@ def _has_quant(e):
     return False
 
 
+def _contract_scope(cm, _cache={}):
+    """names of the contract modules that `cm` builds on (itself, vf.contracts.base, and whatever it imports from, transitively): the
+    lemmas registered by these - and only these - join the VCs of cm's functions. The registry is shared by every contract module
+    loaded in the process, so without this a check that proves functions of several modules would add each module's quantified lemmas
+    to every VC (Parser.call took 82 s next to the term-class lemmas, 3 s on its own)."""
+    import sys
+    import types
+    if cm.__name__ in _cache:
+        return _cache[cm.__name__]
+    seen = {cm.__name__, "vf.contracts.base"}
+    todo = [cm]
+    while todo:
+        m = todo.pop()
+        for v in list(vars(m).values()):
+            name = v.__name__ if isinstance(v, types.ModuleType) else getattr(v, "__module__", None)
+            if isinstance(name, str) and (name.startswith("vf.contracts.") or name.startswith("vf.proplemmas")) and name not in seen:
+                seen.add(name)
+                if name in sys.modules:
+                    todo.append(sys.modules[name])
+    _cache[cm.__name__] = seen
+    return seen
+
+
 def verify_one(task):
     """task = (contract_module, qualname, timeout_ms). Returns a plain-data record."""
     modname, q, timeout_ms = task
@@ -382,9 +460,12 @@ def verify_one(task):
         unf = Unfolder(reg)
         lemmas, twin_lemmas = [], []
         wanted = set(getattr(reg.contracts.get(q), "lemmas", ()))
+        scope = _contract_scope(cm)
         for build in getattr(reg, "lemmas", []):
             if getattr(build, "opt_in", False) and build.__name__ not in wanted:
                 continue           # an expensive lemma (many instances): only for the functions that ask for it
+            if getattr(build, "__module__", None) not in scope:
+                continue           # a lemma of a contract module this one does not build on (it happens to be loaded in this process)
             try:
                 lem = build(reg)
                 if lem is not None:
